@@ -951,7 +951,7 @@ fn run_case(case: &Case, model: &mut Model, log: bool) -> Outcome {
     let sc = &case.scenario;
     let n = case.workers;
     let mut out = Outcome::default();
-    let a = model.ask(&if select_waits() { format!("(init {n} on)") } else { format!("(init {n})") });
+    let a = model.ask(&format!("(init {n} {} {})", if select_waits() { "on" } else { "off" }, if release_dead() { "on" } else { "off" }));
     if a != "ok" {
         out.rejected = Some(format!("model init: {a}"));
         return out;
@@ -1141,6 +1141,19 @@ fn case_json(case: &Case, o: &Outcome) -> serde_json::Value {
 /// answered in the first answer of `query_and_await`). FLIP THE DEFAULT when the patch lands;
 /// `QVERIF_SELECT_WAITS=0|1` overrides it (to run the check against a worktree that has the patch).
 const SELECT_WAITS_DEFAULT: bool = true;
+
+/// Is the repair notes/C06-fixes/01 (`release_dead_roots`: a dead non-persistent process gives up its mailbox, select
+/// state and await maps; `notify_message` drops what can never be received) present in the runtime under test?
+/// Detected from the source the harness is linked against; `QVERIF_RELEASE_DEAD=0|1` overrides.
+fn release_dead() -> bool {
+    match std::env::var("QVERIF_RELEASE_DEAD").ok().as_deref() {
+        Some("1") => true,
+        Some("0") => false,
+        _ => std::fs::read_to_string(format!("{}/quiver-core/src/executor.rs", qverif::repo()))
+            .map(|t| t.contains("fn release_dead_roots"))
+            .unwrap_or(false),
+    }
+}
 
 fn select_waits() -> bool {
     match std::env::var("QVERIF_SELECT_WAITS").ok().as_deref() {
